@@ -106,7 +106,7 @@ def dump(crate='vaporetto', features=None, no_default=False, target='lib', bin_n
         shutil.rmtree(scratch, ignore_errors=True)
 
 
-def _evict(keep=24):
+def _evict(keep=60):
     try:
         ents = [(os.path.getmtime(os.path.join(CACHE, d)), d) for d in os.listdir(CACHE)]
     except OSError:
@@ -123,15 +123,18 @@ def load_program(crate='vaporetto', features=None, no_default=False, target='lib
     from engine import Program
     from srcindex import SourceIndex
     d = dump(crate, features, no_default, target, bin_name)
-    si = SourceIndex(d['src_root'], d['features'])
     mir = d['mir']
     crates = [crate]
     secs = d['secs']
+    feats = set(d['features'])
     for kw in extra:
         d2 = dump(**kw)
         mir += '\n' + d2['mir']
         crates.append(kw['crate'])
         secs += d2['secs']
+        feats |= set(d2['features'])       # cfg(feature) in the sources of a merged crate is evaluated with that crate's features
+    d['features'] = feats
+    si = SourceIndex(d['src_root'], feats)
     files = []
     for cr in crates:
         files += [os.path.relpath(p, d['src_root']) for p in glob.glob(os.path.join(d['src_root'], cr, 'src', '**', '*.rs'), recursive=True)]
